@@ -25,6 +25,20 @@ AllDelims == {AwkD,
               [kind |-> "str", id |-> ","], [kind |-> "str", id |-> ", "], [kind |-> "str", id |-> "TAB"],
               [kind |-> "re", id |-> "[,:]"], [kind |-> "re", id |-> ",+"],
               [kind |-> "re", id |-> ","], [kind |-> "re", id |-> ", "], [kind |-> "re", id |-> "TAB"]}
+(* AWK style on characters that are NOT AWK blanks but look like white space to something else: a second AWK         *)
+(* "delimiter" record (same kind, other id: the harness and FzfFields only look at the kind) that carries its own     *)
+(* alphabets.  AwkLineAlphabet (full menu per line): the two AWK blanks, CR VT FF, NBSP, NEL, and multi-byte          *)
+(* characters whose UTF-8 encoding contains the bytes 0xA0 / 0x85 / 0x80 (a-grave, a-ogonek, U+4F60, U+5800; the      *)
+(* last two are wide).  AwkTokAlphabet (tokens only): also the other control characters, LF, U+2003, U+3000,          *)
+(* zero width space, dagger, e-acute.                                                                                 *)
+AwkU == [kind |-> "awk", id |-> "uni"]
+AwkLineAlphabet == {"a", "b", " ", "TAB", "CR", "VT", "FF", "NBSP", "NEL", "a`", "aog", "ni", "hori"}
+AwkTokAlphabet == AwkLineAlphabet \cup {"LF", "BS", "US", "DEL", "IDSP", "EMSP", "ZWSP", "dag", "e~"}
+ASSUME AwkTokAlphabet \subseteq AllSymbols
+AwkUOnly == {AwkU}
+LineDelims == AllDelims \cup {AwkU}
+LineAlpha(dd) == IF dd = AwkU THEN AwkLineAlphabet ELSE LineAlphabet
+AwkTokAlpha(dd) == AwkTokAlphabet
 (* shape lines for the selection export: one body symbol (multi-byte) plus the delimiter's own symbols *)
 AwkShape   == {"e~", " "}
 CommaShape == {"e~", ","}
@@ -33,7 +47,9 @@ TabShape   == {"e~", "TAB"}
 CColShape  == {"e~", ",", ":"}
 AwkOnly    == {AwkD}
 FullAlpha(dd) == LineAlphabet
-ShapeAlpha(dd) == CASE dd.kind = "awk" -> AwkShape
+AwkUShape  == {"hori", " ", "NBSP"}
+ShapeAlpha(dd) == CASE dd = AwkU -> AwkUShape
+                    [] dd = AwkD       -> AwkShape
                     [] dd.id = ", "    -> CSpShape
                     [] dd.id = "TAB"   -> TabShape
                     [] dd.id = "[,:]"  -> CColShape
@@ -87,7 +103,7 @@ NthMenu == << <<>>,
               <<ExprB(-2)>>, <<ExprAB(2, 3)>>, <<Dots>>, <<ExprN(2), ExprN(1)>>, <<ExprN(1), ExprN(3)>>,
               <<ExprA(3), ExprB(2)>>, <<ExprN(2), ExprA(1)>> >>
 Kinds == <<"exact", "prefix", "suffix", "fuzzy", "xexact">>
-Terms == << <<"a">>, <<"b">>, <<"e~">>, <<",">>, <<"a", "b">>, <<"a", ",">>, <<",", "a">>, <<"e~", "b">> >>
+Terms == << <<"a">>, <<"b">>, <<"e~">>, <<",">>, <<"a", "b">>, <<"a", ",">>, <<",", "a">>, <<"e~", "b">>, <<"ni">>, <<"hori">> >>
 (* combos: index c <-> (nth, kind, term), c = ((n-1)*|Kinds| + (k-1))*|Terms| + t *)
 NCombos == Len(NthMenu) * Len(Kinds) * Len(Terms)
 ComboNth(c) == ((c - 1) \div (Len(Kinds) * Len(Terms))) + 1
@@ -109,7 +125,7 @@ SpecIndex == 12             \* the ordinal the harness passes for {n}: rendered 
 (* --with-nth followed by a search on the rendition: (spec, nth, kind, term) *)
 WNth == << <<>>, <<ExprN(1)>>, <<ExprN(-1)>> >>
 WKinds == <<"exact", "suffix">>
-WTerms == << <<"a">>, <<"e~">>, <<",">>, <<"a", ",">>, <<"b">>, <<":">> >>
+WTerms == << <<"a">>, <<"e~">>, <<",">>, <<"a", ",">>, <<"b">>, <<":">>, <<"ni">> >>
 NWCombos == Len(SpecMenu) * Len(WNth) * Len(WKinds) * Len(WTerms)
 WSpec(c) == ((c - 1) \div (Len(WNth) * Len(WKinds) * Len(WTerms))) + 1
 WNthOf(c) == (((c - 1) \div (Len(WKinds) * Len(WTerms))) % Len(WNth)) + 1
@@ -122,15 +138,19 @@ ParsedExprs == TLCEval([k \in 1..Len(AllExprs) |-> ParseRange(AllExprs[k])])
 ParsedNthMenu == TLCEval([n \in 1..Len(NthMenu) |-> ParseNth(NthMenu[n])])
 ParsedPhMenu == TLCEval([n \in 1..Len(PhMenu) |-> ParseNth(PhMenu[n])])
 ParsedWNth == TLCEval([n \in 1..Len(WNth) |-> ParseNth(WNth[n])])
+(* the character table the C10 alphabets rely on, bound to unicode.IsSpace / the UTF-8 encoder by the harness *)
+CharTable == [s \in LineAlphabet \cup AwkTokAlphabet |->
+                 [blank |-> Blank(s), space |-> Space(s), bytes |-> Utf8Len(s), width |-> Width(s)]]
 (* which menu entry a command line --nth really searches with (entry 1 = no --nth), per kind *)
 EffNthIndex(n, k) == LET eff == EffectiveNth(ParsedNthMenu[n], ExtendedKind(Kinds[k])) IN
                      CHOOSE m \in 1..Len(NthMenu) : ParsedNthMenu[m] = eff
 Menu == [effnth |-> [n \in 1..Len(NthMenu) |-> [k \in 1..Len(Kinds) |-> EffNthIndex(n, k)]], nth |-> NthMenu, kinds |-> Kinds, det |-> [k \in 1..Len(Kinds) |-> Determined(Kinds[k])], terms |-> Terms, specs |-> SpecMenu, index |-> SpecIndex,
-         wnth |-> WNth, wkinds |-> WKinds, wterms |-> WTerms, ph |-> PhMenu, exprs |-> AllExprs]
+         wnth |-> WNth, wkinds |-> WKinds, wterms |-> WTerms, ph |-> PhMenu, exprs |-> AllExprs, chars |-> CharTable]
 
 -------------------------------------------------------------------------------
 (* exhaustive design check: every state, every expression, every combo *)
-InvPartition == Partition(line, d) /\ OffsetsExact(line, d) /\ CutsRight(line, d)
+InvPartition == /\ Partition(line, d) /\ OffsetsExact(line, d) /\ CutsRight(line, d)
+                /\ d.kind = "awk" => AwkByCharacter(line)
 InvSelection == LET toks == Tokenize(line, d) IN
                 /\ SelectionDocumented(toks)
                 /\ \A k \in 1..Len(AllExprs) : ParsedExprs[k].ok => SelectionContiguousT(line, toks, ParsedExprs[k])
